@@ -22,10 +22,6 @@ fn main() {
     let code = match args.prop.as_str() {
         "C08" => c08::run(&args),
         "C09" => c09::run(&args),
-        "BENCH" => {
-            c08::bench();
-            0
-        }
         other => {
             println!("HARNESS-ERROR unknown property {other}");
             2
